@@ -31,8 +31,10 @@ def sweep_history(prop, seed, agg, opts):
         return
     rng = random.Random(mix(seed, "sweep"))
     trace = w.director.mut_trace
-    get_ids = {o["id"] for o in base["ops"] if o["op"] == "GET"}
-    points = [t for t in trace if t[0] in get_ids]
+    # every mutating file-system event of every cache operation (requests, removals, purges, reopens and
+    # the initial open) is a crash point
+    crash_ids = {o["id"] for o in base["ops"] if o["op"] in ("GET", "REMOVE", "PURGE", "REOPEN")} | {-1}
+    points = [t for t in trace if t[0] in crash_ids]
     limit = opts.get("crash_limit", 200)
     if len(points) > limit:
         idx = sorted(rng.sample(range(len(points)), limit))
